@@ -35,6 +35,7 @@ PROPS = {
     "C06": dict(
         title="interleaving search (answers as multiset / membership)",
         props_module="PvModel.Props.C06",
+        props_extra=["PvModel.Props.C07Rel"],
         rule="search programs (conj/conde/disj/fresh over == leaves, member/append calls on bounded lists); 1 in 4 with an infinite producer "
              "(anyo, open-ended member/append, always) observed on a bounded prefix; finite ones compared as multisets with the reference "
              "interpreter and with dfs{} of the same program on the real engine, infinite ones by membership of every delivered answer; "
@@ -46,6 +47,7 @@ PROPS = {
     "C07": dict(
         title="fairness of interleaving disjunction",
         props_module="PvModel.Props.C07",
+        props_extra=["PvModel.Props.C07Rel"],
         rule="disjunctions (conde/disj, nested, optionally under a conjunction) of 2-4 branches drawn from infinite producers "
              "(always+tag, loop, open-ended member/append), silent divergers (never), statically true clauses and finite goals; "
              "observable: the first 12 answers in order; oracle: each branch run alone on the real engine, its first 2 answers must be "
@@ -69,6 +71,7 @@ PROPS = {
     "C10": dict(
         title="branch isolation (conde {A, B} vs A alone and B alone)",
         props_module="PvModel.Props.C10",
+        props_extra=["PvModel.Props.C04Rel"],
         rule="a shared prefix (domains, FD constraints incl. distinctfd, bindings, disequalities, plusz) followed by conde of 2-3 clauses that post "
              "bindings/disequalities/domains/FD/CLP(Z) constraints and may produce several interleaved answers; the same prefix followed by each "
              "clause alone; oracle: multiset(combined) = union of the separate runs; observable for the model: the combined answer sequence; "
@@ -80,6 +83,7 @@ PROPS = {
     "C16": dict(
         title="CLP(FD) soundness (answers satisfy every posted constraint)",
         props_module="PvModel.Props.C16",
+        props_extra=["PvModel.Props.C16Rel"],
         rule="every program twice: (1) as a query — FD programs: 1-4 variables, interval and sparse (unsorted, duplicated) domains over -4..=4 with mixed signs placed before/between/after "
              "the constraints, 1-5 constraints of every kind with operand aliasing and constants, == between variables and to numbers, 1 in 6 with a "
              "conde of constraint groups, hidden (non-query) FD variables; observable: answer sequence; oracle: brute force over the window — every "
@@ -124,6 +128,7 @@ PROPS = {
     "C04": dict(
         title="reordering conjuncts/disjuncts (answer multiset)",
         props_module="PvModel.Props.C04",
+        props_extra=["PvModel.Props.C04Rel"],
         rule="terminating programs, half pure tree (==, !=, fresh, nested conde) and half FD (the C16 generator incl. conde and structured query "
              "terms); each run as written and under random permutations of every conjunction and every clause list (all permutations of a "
              "top-level conjunction of <=3 goals); answers compared as multisets of (canonical terms, truth table of the reported constraints) / "
@@ -136,7 +141,7 @@ PROPS = {
     "C09": dict(
         title="query iteration: lazy, fused, deterministic",
         props_module="PvModel.Props.C09",
-        props_extra=["PvModel.Props.C09Sequence"],
+        props_extra=["PvModel.Props.C09Sequence", "PvModel.Props.C09Rel"],
         rule="tree programs with several disequalities, search programs (half with an infinite producer and take(n)), FD programs; each run twice in "
              "one process, under 3 forced iteration orders of the constraint store (permutation hook), to exhaustion + 3 further next() calls "
              "(fused), with take(n) vs take(n+4) (lazy), and the whole harness again in fresh processes (fresh hash seeds: 2 in quick, 8 in "
@@ -174,7 +179,7 @@ PROPS = {
     "C24": dict(
         title="library list relations (member, member1, append, rember, permute, distinct, cons, first, rest, empty)",
         props_module="PvModel.Props.C24",
-        props_extra=["PvModel.Props.C24Sem"],
+        props_extra=["PvModel.Props.C24Sem", "PvModel.Props.C24Count"],
         rule="every relation in random argument modes (each argument a fresh variable, a list with a variable element, or ground; lists of length "
              "<=4 over {1,2,3} with repeats); finite modes: the ground instances of the answers over a finite universe (through the reported "
              "constraints) are exactly the ground tuples in the relation, member yields one answer per matching position and member1 one per "
@@ -200,6 +205,7 @@ PROPS = {
     "C12": dict(
         title='for/everyg (surface form `for x in &coll { body }`)',
         props_module="PvModel.Props.C12",
+        props_extra=["PvModel.Props.C12Rel"],
         rule='programs with `for e in &coll { body }` over collections of 0-3 literals / lists / outer query variables, bodies of 1-2 goals using the loop variable and outer variables, optionally after another goal; emitted as Rust SOURCE inside proto_vulcan!, compiled against the current tree; oracle: the explicit conjunction (reverse collection order) built through the runtime API, answer sequences equal; the reference program goes through the model; non-trivial = >=2 answers or a non-ground answer; distinct = distinct case lines',
         trusted=SEARCH_TRUST + ["syn parsing of the surface syntax is not modelled: the theorems start at the AST; the harness PRINTS ASTs to Rust source, so a parser slip surfaces as a compile error or a disagreement", "project and fngoal clauses are not generated; compound constructors / patterns are generated where the macro grammar accepts them (operands of == / !=, whole match patterns; arguments: variables, `_`, literals, proper lists)"],
         assumptions=["the reference elaboration (surf.rs) is the documented meaning: names resolved lexically, one new variable per binder / distinct pattern name / `_`"],
@@ -218,6 +224,7 @@ PROPS = {
     "C14": dict(
         title='surface syntax -> goals and terms',
         props_module="PvModel.Props.C14",
+        props_extra=["PvModel.Props.C14Engine"],
         rule='random surface programs over the clause grammar (==, !=, true/false, [..], conde/conda/condu/onceo, |x| {..} with shadowing, closure { }, relation calls) and the term grammar (numbers, bools, chars, strings, variables, `_`, [], nested proper/improper lists); emitted as Rust source, compiled, run; oracle: reference elaboration through the runtime API (answer sequences, reported per query variable in declaration order); non-trivial/distinct as C12',
         trusted=SEARCH_TRUST + ["syn parsing of the surface syntax is not modelled: the theorems start at the AST; the harness PRINTS ASTs to Rust source, so a parser slip surfaces as a compile error or a disagreement", "project and fngoal clauses are not generated; compound constructors / patterns are generated where the macro grammar accepts them (operands of == / !=, whole match patterns; arguments: variables, `_`, literals, proper lists)"],
         assumptions=["the reference elaboration (surf.rs) is the documented meaning: names resolved lexically, one new variable per binder / distinct pattern name / `_`"],
@@ -249,6 +256,7 @@ PROPS = {
     "C23": dict(
         title="no panic on well-formed programs",
         props_module="PvModel.Props.C23",
+        props_extra=["PvModel.Props.C23Rel"],
         rule="WELL-FORMED stream: per index one program from each generator (tree constraints with compounds, search with committed choice / dfs / "
              "infinite producers on bounded prefixes, FD incl. structured query terms and hidden variables, CLP(Z), library relations in random "
              "modes, project reached once / twice), goal construction and solving under catch_unwind; oracle: no panic (project-twice = known "
